@@ -490,6 +490,18 @@ def resync(grid, R, C, like):
     return out
 
 
+def resync_all(grid, R, C, likes):
+    """resync() for every distinct VIEW PRINT state among the given candidates (after a WIDTH/SCREEN
+    that named the current mode, 'window kept' and 'window reset' can both still be alive)."""
+    out, seen = [], set()
+    for like in likes:
+        v = (like.top, like.bot, like.act)
+        if v not in seen:
+            seen.add(v)
+            out.extend(resync(grid, R, C, like))
+    return out
+
+
 def matches(cd, grid, R, C):
     if cd.W != len(grid[0]):
         return False
@@ -686,11 +698,16 @@ def _run(case, ops, sess, res):
             # not predicted: invariants only
             res.label('loose-op')
             top, bot = ref.top, ref.bot
-            if ref.act and not top <= R <= bot:
+            one_view = all((cd.top, cd.bot, cd.act) == (top, bot, ref.act) for cd in cands)
+            if not one_view:
+                res.label('ambiguous-window')
+            if one_view and ref.act and not top <= R <= bot:
                 res.fail('invariant.cursor-outside-window',
                          'step %d %s: CSRLIN=%d window %d-%d' % (idx, desc, R, top, bot))
             cursor_on_25 = any(cd.r == H for cd in cands)
             for i in range(1, H + 1):
+                if not one_view:
+                    break
                 if top <= i <= bot or (i == H and cursor_on_25):
                     continue
                 if grid[i - 1] != before_grid[i - 1]:
@@ -712,7 +729,7 @@ def _run(case, ops, sess, res):
                                  '%r -> %r' % (idx, desc, sorted(ref.reported()), top, bot, i,
                                                before_grid[i - 1].rstrip(), grid[i - 1].rstrip()))
                         break
-            cands = resync(grid, R, C, ref)
+            cands = resync_all(grid, R, C, cands)
         else:
             live = []
             for exp, cd in outs:
@@ -761,7 +778,7 @@ def _run(case, ops, sess, res):
             else:
                 _classify(res, kind, idx, desc, op, outs, err, grid, before_grid, R, C, cands,
                           ref, prev_fs)
-                cands = resync(grid, R, C, _view_after(outs, err, ref))
+                cands = resync_all(grid, R, C, _views_after(outs, err, ref))
             if kind == 'locate':
                 res.label('locate-ok' if err == 0 else 'locate-err%d' % err)
             if kind == 'view' and err == 0 and op.get('a') is not None:
@@ -814,17 +831,16 @@ def _run(case, ops, sess, res):
                 res.fail('screenfn.side-effect', 'step %d after %s: SCREEN() probes changed the '
                          'screen or the cursor' % (idx, desc))
                 grid, R, C = obs2
-                cands = resync(grid, R, C, ref)
+                cands = resync_all(grid, R, C, cands)
     res.nt(nontrivial)
     res.label('width-%d-at-end' % len(grid[0]))
     res.label('mode-%s-at-end' % mode)
 
 
-def _view_after(outs, err, ref):
-    for exp, cd in outs:
-        if exp == err or (exp == 'err' and err != 0):
-            return cd
-    return ref
+def _views_after(outs, err, ref):
+    """Candidates whose expected error matches what happened (their windows are the possible ones)."""
+    hit = [cd for exp, cd in outs if exp == err or (exp == 'err' and err != 0)]
+    return hit or [ref]
 
 
 def _classify(res, kind, idx, desc, op, outs, err, grid, before_grid, R, C, cands, ref,
@@ -1056,6 +1072,12 @@ REGRESSIONS = [
                              _p('\x1c'), {'op': 'view', 'a': 3, 'b': 5},
                              _p('in window', True), {'op': 'locate', 'rk': 'abs', 'rv': 6, 'ck': 'abs',
                                                      'cv': 3}, _p('\x1f\x1f'), _p('\x0b\x1e\x1d')]},
+    # model regression: WIDTH 80 on an 80-column blank screen keeps 'window kept' and 'window
+    # reset' alive; an unmodelled PRINT (BEL) in between must not collapse that to the wrong one
+    {'video': 'cga', 'ops': [{'op': 'view', 'a': 1, 'b': 13}, {'op': 'cls', 'arg': 2},
+                             {'op': 'width', 'w': 80}, _p('ab\x07cd', True),
+                             {'op': 'locate', 'rk': 'abs', 'rv': 25, 'ck': 'abs', 'cv': 79,
+                              'q': [[15, 76]]}, _p('x', True)]},
     # illegal LOCATE / VIEW PRINT leave the cursor alone
     {'video': 'vga', 'ops': [_p('abc'), {'op': 'locate', 'rk': 'abs', 'rv': 27, 'ck': 'abs',
                                          'cv': 3},
